@@ -623,7 +623,7 @@ def run_values(rep, tier):
     res = {}
 
     def tlc(name, c):
-        res[name] = run_tlc("JsonValues", c, timeout=1500)
+        res[name] = run_tlc("JsonValues", c, timeout=1500, only=(BROKEN_CFG[2] if name == "broken" else None))
     th = [threading.Thread(target=tlc, args=("main", cfg)), threading.Thread(target=tlc, args=("broken", BROKEN_CFG[0]))]
     [t.start() for t in th]
     [t.join() for t in th]
